@@ -4,7 +4,7 @@ Oracle = optimality conditions evaluated in longdouble on matrices whose rank, n
 condition number are known by construction; never a second solver.
 
 Monitors
-  ls_optimal        PINV / LSTSQ:  |A^T (A x - b)| <= u (32 max(m,n) + 48 kappa [PINV only]) |A| (|A||x| + |b|)
+  ls_optimal        PINV / LSTSQ:  |A^T (A x - b)| <= u |A| ((32 max(m,n) + 512 [SVD drivers]) (|A||x| + |b|) + 64 kappa |b| [PINV])
   min_norm          PINV:          component of x outside the (constructed) row space of A <= c u kappa (|x| + |b|/|A|)
   chol_backward     Cholesky on SPD A:  |A x - b| <= c u (|A||x| + |b|)
   chol_must_raise   Cholesky on symmetric A with an eigenvalue <= -0.1|A| (constructed spectra, a negative diagonal
@@ -16,7 +16,6 @@ Monitors
   sparse_product    _sparse_csr_mm / bsr_bsc_matmul: .to_dense() equals the dense product within c u (|A||B|)_ij,
                     result shape; unsupported layout pairs must raise (recorded in the evidence)
 """
-import itertools
 import math
 
 import numpy as np
@@ -41,12 +40,15 @@ RULE = ("direct solvers: A = T (U diag(s) V^T) S with orthonormal U, V, a prescr
         "n = 1..40, |b| in {1e-3,1,1e3}, tol in {1e-3,1e-5,1e-8}, with/without initial guess (random, exact, zero) and "
         "SPD preconditioner (Jacobi dense/sparse, approximate inverse). sparse: all 16 (BSR,BSC,CSR,CSC)^2 layout pairs, "
         "block sizes 1..4 (rectangular), densities {0,0.1,0.5,1}, every pair of index subsets of {0..k-1} for k<=4 (5 "
-        "thorough) as (row of A, column of B), targeted merge-join patterns for longer rows. one case = one system / one "
+        "thorough) as (row of A, column of B), targeted merge-join patterns for longer rows, square operands with equal "
+        "block sizes. one case = one system / one "
         "product; distinct = distinct operand bit patterns; trivial = zero matrix / zero right-hand side / empty pattern.")
 ASSUME = ["rank decisions are unambiguous by construction; when torch's own svdvals of a rank-deficient A puts a 'zero' singular "
           "value above half of pinv's default cutoff eps*max(m,n)*smax, only least-squares optimality is judged (counted as "
           "ambiguous_rank)",
           "float32: condition numbers up to 1e4 (1/kappa must stay far above eps*max(m,n))",
+          "SVD-based solvers (PINV, LSTSQ gelsd/gelss) are granted a size-independent constant 512 (measured up to 45, also for "
+          "numpy.linalg.lstsq, when small singular values cluster); PINV additionally u*kappa*|A||b| (explicitly formed pseudo-inverse)",
           "LSTSQ is judged on least-squares optimality only (minimum norm is stated for PINV); driver 'gels' only on full-rank input",
           "CG: the stated bound is evaluated with exact arithmetic on the returned x and is granted the round-off the "
           "recurrence cannot avoid, c*u*(|A| max(|x|,|x0|)+|b|) (x is accumulated on top of the initial guess x0); single right-hand side, single system (as documented)",
@@ -57,10 +59,11 @@ ASSUME = ["rank decisions are unambiguous by construction; when torch's own svdv
 LD = np.longdouble
 DT = {"f64": torch.float64, "f32": torch.float32}
 C_LS = 32.0      # x max(m,n)
-C_LSK = 48.0     # x kappa (PINV only)
+C_LSK = 64.0     # x kappa |b| (PINV only)
+C_SVD = 512.0    # size-independent constant of the SVD-based drivers
 C_MN = 64.0
 C_CH = 16.0
-C_CG = 8.0
+C_CG = 16.0
 C_SP = 16.0
 SIZES = (1, 2, 3, 4, 5, 7, 8, 11, 13, 16, 17, 23, 29, 31, 32, 37, 39, 40)
 
@@ -228,11 +231,17 @@ def judge_ls(ck, sname, cfg, dn, sysd, b, x, bkind, batch_tag, minnorm, kappa_in
         return
     g = Al.T @ (Al @ xl - bl)
     nx, nb = n2(xl), n2(bl)
-    # backward-stable factorisations: p(m,n) u |A| (|A||x| + |b|) with p ~ max(m,n); the explicitly formed
-    # pseudo-inverse adds u kappa |A| |b| (pinv(A) carries an absolute error u / smin)
-    fac = C_LS * max(m, n) + (C_LSK * sysd["kappa"] if kappa_in_ls else 0.0)
-    tol = fac * u * sysd["smax"] * (sysd["smax"] * nx + nb) + 64 * tiny
+    # backward-stable factorisations: p(m,n) u |A| (|A||x| + |b|), p ~ max(m,n) for the QR drivers; the SVD drivers
+    # (gelsd, gelss, pinv) show a size-independent constant up to ~45 when small singular values cluster (measured
+    # on 6000 matrices of size 2..6, independent of kappa; numpy.linalg.lstsq behaves the same);
+    # pinv(A) @ b forms the pseudo-inverse explicitly (entrywise error u/smin): u kappa |A||b| on top
+    svd_based = kappa_in_ls is not False
+    tol = u * sysd["smax"] * ((C_LS * max(m, n) + (C_SVD if svd_based else 0.0)) * (sysd["smax"] * nx + nb)
+                              + (C_LSK * sysd["kappa"] * nb if kappa_in_ls == "pinv" else 0.0)) + 64 * tiny
     ck.note_max(f"max_r_ls_optimal/{sname}{cfg}/{dn}", n2(g) / tol)
+    if nb > 0 and sysd["smax"] > 0:
+        ck.note_max(f"max_ls_grad_over_u_kappa_A_b/{sname}{cfg}/{dn}", n2(g) / (u * sysd["smax"] * sysd["kappa"] * nb))
+        ck.note_max(f"max_ls_grad_over_u_maxmn_scale/{sname}{cfg}/{dn}", n2(g) / (u * max(m, n) * sysd["smax"] * (sysd["smax"] * nx + nb)))
     ck.ratio("ls_optimal", regime, n2(g), tol, entry, "not_a_least_squares_solution",
              lambda: dict(wit(), gradient=np.asarray(g, dtype=np.float64).reshape(-1).tolist()))
     if minnorm:
@@ -261,12 +270,12 @@ def ambiguous_rank(A, r, dn):
 
 
 def ls_solvers(dn, cls_full):
-    out = [("PINV", "", lambda: pps.PINV(), True, True),
+    out = [("PINV", "", lambda: pps.PINV(), True, "pinv"),
            ("LSTSQ", "", lambda: pps.LSTSQ(), False, False),
-           ("LSTSQ", "[gelsd]", lambda: pps.LSTSQ(driver="gelsd"), False, False),
-           ("LSTSQ", "[gelss]", lambda: pps.LSTSQ(driver="gelss"), False, False)]
+           ("LSTSQ", "[gelsd]", lambda: pps.LSTSQ(driver="gelsd"), False, "svd"),
+           ("LSTSQ", "[gelss]", lambda: pps.LSTSQ(driver="gelss"), False, "svd")]
     rt = 1e-11 if dn == "f64" else 1e-5
-    out.append(("PINV", f"[rtol={rt:g}]", lambda: pps.PINV(rtol=rt), True, True))
+    out.append(("PINV", f"[rtol={rt:g}]", lambda: pps.PINV(rtol=rt), True, "pinv"))
     if cls_full:
         out.append(("LSTSQ", "[gels]", lambda: pps.LSTSQ(driver="gels"), False, False))
     return out
